@@ -514,6 +514,19 @@ func (w *World) emit(n *Node, m tss.Message, ev *StepEvent) {
 	}
 }
 
+// SendEmission puts (possibly altered) wire bytes of an earlier intercepted emission on the wire.
+func (w *World) SendEmission(n *Node, em *Emission, wire []byte) {
+	w.msgID++
+	for _, to := range em.To {
+		w.seq++
+		e := &Envelope{Seq: w.seq, MsgID: w.msgID, From: n.Idx, To: to, Bcast: em.Bcast, Type: em.Type, Wire: wire, Orig: -1}
+		if w.RoundOf != nil {
+			e.Round = w.RoundOf(em.Type)
+		}
+		w.Inflight = append(w.Inflight, e)
+	}
+}
+
 func shortType(t string) string {
 	return strings.TrimPrefix(t, "binance.tsslib.")
 }
